@@ -92,11 +92,21 @@ def fromEvr (s : List Char) : Option Raw :=
     let (v, r) := if vr.contains '-' then partition '-' vr else (vr, [])
     some ⟨ep, v, r⟩
 
-/-- `RpmVersion(string)`: `normalize`, `Version.is_valid` (= `bool(string)`, not overridden),
-`build_value` = `rpm.RpmVersion.from_string` (its `s.strip()` is a discarded no-op). -/
+/-- `RpmVersion.is_valid(string)` (since 27588a5):
+`try: return bool(string) and bool(cls.build_value(string).version) except ValueError: return False` -/
+def isValid (n : List Char) : Bool :=
+  if n.isEmpty then false
+  else match fromEvr n with
+    | none => false
+    | some r => !r.version.isEmpty
+
+/-- `RpmVersion(string)`: `normalize`, `is_valid` (else `InvalidVersion`), then
+`build_value` = `rpm.RpmVersion.from_string` (its `s.strip()` is a discarded no-op) a second time;
+the `ValueError` branch of that second call is kept as the code has it (it is dead:
+`construct_declared`). -/
 def construct (s : List Char) : Except PErr Raw :=
   let n := normalize s
-  if n.isEmpty then .error .invalid
+  if !isValid n then .error .invalid
   else match fromEvr n with
     | none => .error (.other "ValueError")
     | some r => .ok r
